@@ -131,6 +131,12 @@ THREE = {'T1': (0.0, 2.4), 'TD': (2.4, 3.2), 'T2': (3.2, 5.6), 'T3': (5.6, 8.0),
          'LHT1': (0.0, 1.2), 'RHT1': (1.2, 2.4), 'LHT2': (3.2, 4.4), 'RHT2': (4.4, 5.6), 'LHT3': (5.6, 6.8), 'RHT3': (6.8, 8.0)}
 FOUR = {'FD': (0.0, 1.0), 'F1': (1.0, 2.75), 'F2': (2.75, 4.5), 'F3': (4.5, 6.25), 'F4': (6.25, 8.0), 'F12': (1.0, 4.5), 'F23': (2.75, 6.25),
         'F34': (4.5, 8.0), 'F14': (1.0, 8.0)}
+# a track name addresses a track by its position, whatever the letter: on the four track film 'T1' is its first track (FD), 'T2' and
+# 'T3' its third and fourth (F2, F3) - the same names as on a three track film, but another geometry
+FOUR.update({'T1': FOUR['FD'], 'T2': FOUR['F2'], 'T3': FOUR['F3'], 'T23': (FOUR['F2'][0], FOUR['F3'][1]), 'T12': (FOUR['FD'][0], FOUR['F2'][1]),
+             'T13': (FOUR['FD'][0], FOUR['F3'][1]),
+             'LHT2': (FOUR['F2'][0], sum(FOUR['F2']) / 2), 'RHT2': (sum(FOUR['F2']) / 2, FOUR['F2'][1]),
+             'LHT3': (FOUR['F3'][0], sum(FOUR['F3']) / 2), 'RHT3': (sum(FOUR['F3']) / 2, FOUR['F3'][1])})
 GCODS = [(b'EEE ', b'----', THREE), (b'E20 ', b'-4--', THREE), (b'E2E ', b'-2--', THREE), (b'E3E ', b'-3--', THREE), (b'E4E ', b'-4--', THREE),
          (b'EEB ', b'----', THREE), (b'BBB ', b'----', THREE), (b'E2E ', b'-1--', THREE), (b'E1E ', b'-4--', THREE), (b'LLLL', b'1111', FOUR)]
 # spellings seen on field tapes that the reader documents as equivalents (its "alternate" table; a GDEC whose last
@@ -295,8 +301,12 @@ def random_plot_spec(rng, nframes=None):
     nfilm = rng.choice([1, 2, 2, 2, 3])
     films = []
     idents = rng.sample([b'1   ', b'2   ', b'A   ', b'D   ', b'E   '], nfilm)
+    mixed = nfilm >= 2 and rng.random() < 0.3      # a three track film and the four track film in one table, in either order
+    four_at = rng.randrange(2)
     for i in range(nfilm):
         g = rng.choice(GCODS) if rng.random() < 0.75 else rng.choice(GCODS_ALT)
+        if mixed and i < 2:
+            g = GCODS[-1] if i == four_at else rng.choice(GCODS[:-1])
         films.append((idents[i], g, rng.choice([b'D200', b'D200', b'D500', b'DM  ', b'D40 ', b'S5  ', b'D20 ', b'S2  '])))
     spec['films'] = films
     nch = rng.randrange(1, 7)
